@@ -648,8 +648,10 @@ def _edns_option(b):
             tb = txt.encode("utf8")
         except UnicodeEncodeError:
             tb = b"x"
-        if tb.endswith(b"\x00") or (tb == b"" and False):
-            b.flags.add("normalizing")
+        # the library drops ONE trailing NUL when it parses EXTRA-TEXT ("MAY be null-terminated"),
+        # so a text that still ends in NUL afterwards is not a value it keeps stable; the domain
+        # is texts without trailing NULs, optionally NUL-terminated once on the wire
+        tb = tb.rstrip(b"\x00")
         if b.draw(st.integers(0, 7)) == 0:
             tb += b"\x00"
             b.flags.add("normalizing")
